@@ -6612,15 +6612,20 @@ func (bexp *LikeBoolExp) reduce(tx *SQLTx, row *Row, implicitTable string) (Type
 // Backslash escapes in the pattern (\% and \_) are honored.
 func sqlLikeToRegex(pattern string) string {
 	var b strings.Builder
-	b.WriteString("^")
+	// (?s): wildcards must match any character, newline included
+	b.WriteString("(?s)^")
+
+	// the pattern is processed character by character (not byte by byte)
+	// so that multi-byte UTF-8 characters are preserved
+	runes := []rune(pattern)
 
 	i := 0
-	for i < len(pattern) {
-		ch := pattern[i]
+	for i < len(runes) {
+		ch := runes[i]
 		switch {
-		case ch == '\\' && i+1 < len(pattern):
+		case ch == '\\' && i+1 < len(runes):
 			// Escaped character — treat next char as literal
-			next := pattern[i+1]
+			next := runes[i+1]
 			b.WriteString(regexp.QuoteMeta(string(next)))
 			i += 2
 		case ch == '%':
